@@ -22,8 +22,10 @@ open Furiko Furiko.Str Furiko.Cron Furiko.CronRec
 system (`C02`: requests, passes with arbitrary cache views and create faults, crashes, deletions),
 in a world of JobConfig versions whose identities behave (`WorldOK`), without zero-time Jobs
 (finding C02-F1).
-*The restart*: the cron worker loads the JobConfigs `jcs` (`schedNew`), then ticks at the
-non-decreasing instants `ts`; `reqs` is everything it requests (`runTicks`, flattened).
+*The restart*: the cron worker loads the JobConfigs `jcs` (`schedNew`; `bootCtl jcs pq` is the
+state `Init` leaves), then runs ANY boot sequence `boot`: ticks at non-decreasing instants
+interleaved with the informer's add notifications for the loaded JobConfigs, each handled at most
+once, whenever (`BootOK`; finding F24); `reqs` is everything it requests (`ctlRun`, flattened).
 *Bridge*: the loaded `jc : Cron.JC` and the reconciler's `c : CronRec.JobConfig` are the same
 object: `jc.key` is `c`'s store key `ns/name` (`hkey`); requested times are Unix seconds other
 than Go's zero time (`hrq`).
@@ -49,10 +51,10 @@ theorem restart_end_to_end
     (hnd : (jcs.map (fun jc => jc.key)).Nodup)
     (hs : ∀ jc ∈ jcs, ∀ l ∈ jc.sched.exprs, SortedStrict l)
     (h : schedNew jcs cfg dflt now = some pq) {cap : Int} {flushLimit fuel : Nat}
-    (ts : List Int) (hts : List.Pairwise (· ≤ ·) ts)
-    (hdone : (runTicks cap flushLimit fuel ⟨pq, jcs.map (fun jc => (jc.key, jc)), []⟩ ts).2.2 = true)
+    {boot : List CtlAct} (hok : BootOK jcs boot) (hts : List.Pairwise (· ≤ ·) (ticksOf boot))
+    (hdone : (ctlRun Shapes.fixed cap flushLimit fuel (bootCtl jcs pq) boot).2.2 = true)
     (reqs : List (String × Int))
-    (hreqs : reqs = (runTicks cap flushLimit fuel ⟨pq, jcs.map (fun jc => (jc.key, jc)), []⟩ ts).2.1.flatten)
+    (hreqs : reqs = (ctlRun Shapes.fixed cap flushLimit fuel (bootCtl jcs pq) boot).2.1.flatten)
     {jc : JC} (hjc : jc ∈ jcs)
     (c : JobConfig) (hc : world c) (hkey : jc.key = String.ofList (metaNsKey c.ns c.name))
     (hrq : ∀ p ∈ reqs, p.2 ≠ zeroUnix ∧ InInt64 p.2)
@@ -68,6 +70,9 @@ theorem restart_end_to_end
     (∀ u t, t ≠ zeroUnix → (sF.api.filter (fun j => j.ownerUid = some u ∧
         j.schedAnnot = some (showInt t))).length ≤ 1) := by
   intro R sF
+  -- late initial adds are invisible: the boot sequence requests what its ticks request
+  have hboot := (ctlRun_bootCtl cap flushLimit fuel pq hnd hok).2
+  rw [hboot] at hdone hreqs
   have hrz : ∀ p ∈ reqs, p.2 ≠ zeroUnix := fun p hp => (hrq p hp).1
   -- the crashed state satisfies the catch-up invariant
   have hcr : Reachable world (applyAct s0 .crash) :=
@@ -79,11 +84,11 @@ theorem restart_end_to_end
   have hUF : C02.UidFunctional world := hW.uid_fun
   refine ⟨⟨?_, ?_⟩, ?_, ?_, ?_⟩
   · show SortedStrict (outk reqs jc.key)
-    rw [hreqs]; exact restart_requests_sorted hnd hs h ts hts hdone hjc
+    rw [hreqs]; exact restart_requests_sorted hnd hs h _ hts hdone hjc
   · intro ls hls t ht
     have ht' : (jc.key, t) ∈ reqs := mem_outk.1 ht
     rw [hreqs] at ht'
-    exact C04.never_rerequest_run hnd hs h ts hts hdone hjc hls t ht'
+    exact never_rerequest_run_lemma hnd hs h _ hts hdone hjc hls t ht'
   · obtain ⟨new, hnew, hprop⟩ := hI.grow
     refine ⟨new, hnew, fun j hj ho => ?_⟩
     obtain ⟨t, ht, h1, h2, h3⟩ := hprop j hj ho
@@ -102,7 +107,8 @@ theorem restart_end_to_end
   · intro u t ht
     exact (C02.at_most_one world hUF sF hI.reach u t ht).1
 
-/-- … and for the FIRST tick after the restart (at `n1`) the requested times of `c` are exactly the
+/-- … and when the boot sequence has ONE tick (at `n1`; the initial adds of loaded JobConfigs may
+be handled before or after it) the requested times of `c` are exactly the
 `min cap |D|` earliest elements of `D = {m | Eligible jc cfg dflt now m ∧ m ≤ floorSec n1}`
 (`C04.catch_up_exact`), so the new Jobs of `c` are exactly the Jobs of those times:
 "Jobs after restart + quiescence = Jobs before ∪ Jobs for `catch_up_exact`'s times". -/
@@ -113,9 +119,10 @@ theorem restart_end_to_end_first_tick
     (hnd : (jcs.map (fun jc => jc.key)).Nodup)
     (hs : ∀ jc ∈ jcs, ∀ l ∈ jc.sched.exprs, SortedStrict l)
     (h : schedNew jcs cfg dflt now = some pq) {n1 cap : Int} {flushLimit fuel : Nat}
-    (hdone : (work ⟨pq, jcs.map (fun jc => (jc.key, jc)), []⟩ n1 cap flushLimit fuel).2.2 = true)
+    {boot : List CtlAct} (hok : BootOK jcs boot) (hticks : ticksOf boot = [n1])
+    (hdone : (ctlRun Shapes.fixed cap flushLimit fuel (bootCtl jcs pq) boot).2.2 = true)
     (reqs : List (String × Int))
-    (hreqs : reqs = (work ⟨pq, jcs.map (fun jc => (jc.key, jc)), []⟩ n1 cap flushLimit fuel).2.1)
+    (hreqs : reqs = (ctlRun Shapes.fixed cap flushLimit fuel (bootCtl jcs pq) boot).2.1.flatten)
     {jc : JC} (hjc : jc ∈ jcs) (hen : jc.sched.enabled = true) (hpe : jc.sched.parseErr = false)
     (c : JobConfig) (hc : world c) (hkey : jc.key = String.ofList (metaNsKey c.ns c.name))
     (hrq : ∀ p ∈ reqs, p.2 ≠ zeroUnix ∧ InInt64 p.2)
@@ -129,15 +136,19 @@ theorem restart_end_to_end_first_tick
             j.name = jobName c.name t) ∧
         ∀ t ∈ D.take cap.toNat, ((runActs (applyAct s0 .crash) acts).api.filter (fun j =>
           j.ownerUid = some c.uid ∧ j.schedAnnot = some (showInt t))).length = 1 := by
-  obtain ⟨D, hD, hmem, htake⟩ := C04.catch_up_exact hnd hs h hdone hjc hen hpe
-  have hrun : (runTicks cap flushLimit fuel ⟨pq, jcs.map (fun jc => (jc.key, jc)), []⟩ [n1]).2.1.flatten
-      = reqs := by rw [hreqs]; simp [runTicks]
-  have hdone' : (runTicks cap flushLimit fuel ⟨pq, jcs.map (fun jc => (jc.key, jc)), []⟩ [n1]).2.2 = true := by
-    simp [runTicks, hdone]
-  have hR : outk reqs jc.key = D.take cap.toNat := by rw [hreqs]; exact htake
+  have hboot := (ctlRun_bootCtl cap flushLimit fuel pq hnd hok).2
+  rw [hticks] at hboot
+  have hdone' : (work ⟨pq, listerOf jcs, []⟩ n1 cap flushLimit fuel).2.2 = true := by
+    have := hdone
+    rw [hboot] at this
+    simpa [runTicks, listerOf] using this
+  obtain ⟨D, hD, hmem, htake⟩ := catch_up_lemma hnd hs h hdone' hjc ⟨hen, hpe⟩
+  have hR : outk reqs jc.key = D.take cap.toNat := by
+    rw [hreqs, hboot]
+    simpa [runTicks, listerOf] using htake
   obtain ⟨_, ⟨new, hnew, hprop⟩, hone, _⟩ :=
-    restart_end_to_end hW s0 hr0 hz0 hnd hs h [n1] (by simp) hdone' reqs hrun.symm hjc c hc hkey hrq
-      acts hlegal hcu hserved
+    restart_end_to_end hW s0 hr0 hz0 hnd hs h hok (by rw [hticks]; simp) hdone reqs hreqs hjc c hc
+      hkey hrq acts hlegal hcu hserved
   refine ⟨D, hD, hmem, new, hnew, ?_, ?_⟩
   · intro j hj ho
     obtain ⟨t, ht, r⟩ := hprop j hj ho
@@ -279,11 +290,14 @@ example :
       j.schedAnnot = some (showInt t))).length = 1 := by
   have hs : ∀ jc ∈ [jcA'], ∀ l ∈ jc.sched.exprs, SortedStrict l := by
     intro jc hjc; rw [List.mem_singleton.1 hjc]; exact Ex.jcA_sorted
-  have hreqs : reqsA = (runTicks 5 1000 10 ⟨Heap.new [("ns/a", 10)], [jcA'].map (fun jc => (jc.key, jc)), []⟩
-      [26000000000]).2.1.flatten := by decide
+  -- the informer's add notification for `ns/a` is handled between `Init` and the first tick
+  have hok : BootOK [jcA'] [.initialAdd jcA', .tick 26000000000] :=
+    ⟨by decide, by simp [initialAddsOf], by simp [initialAddsOf]⟩
+  have hreqs : reqsA = (ctlRun Shapes.fixed 5 1000 10 (bootCtl [jcA'] (Heap.new [("ns/a", 10)]))
+      [.initialAdd jcA', .tick 26000000000]).2.1.flatten := by decide
   obtain ⟨⟨_, h1⟩, _, h3, _⟩ := restart_end_to_end worldA_ok sPre sPre_reachable (by decide)
     (jcs := [jcA']) (cfg := 0) (dflt := 300) (now := 25500000000) (pq := Heap.new [("ns/a", 10)])
-    (cap := 5) (flushLimit := 1000) (fuel := 10) (by decide) hs rfl [26000000000] (by simp) (by decide)
+    (cap := 5) (flushLimit := 1000) (fuel := 10) (by decide) hs rfl hok (by simp [ticksOf]) (by decide)
     reqsA hreqs (jc := jcA') (by simp) cA rfl (by decide) (by decide) actsA actsA_legal actsA_catchUp
     actsA_served
   exact ⟨by decide, h1 5 rfl, h3⟩
@@ -486,7 +500,8 @@ character by character, server-set fields `m` arbitrary); `read` is `c`'s object
 and uid.
 *Afterwards*: any interleaving `acts` of further syncs (stale reads, arbitrary Job caches — `j` may
 have been deleted) and foreign writes; then a restart whose loaded `jc` carries the
-`lastScheduled` then on the API (`hbridge2`, as in `C04Status`).
+`lastScheduled` then on the API (`hbridge2`, as in `C04Status`), followed by any boot sequence
+`boot` (ticks interleaved with the informer's initial adds of the loaded JobConfigs).
 
 Then the Job is listed by `listJobs` for `read` and its annotation reads back as `t` (across the
 two models' independent `Atoi`/`%v` implementations); right after the sync the recorded
@@ -504,21 +519,21 @@ theorem scheduled_job_counted
     (hnd : (jcs.map (fun jc => jc.key)).Nodup)
     (hs : ∀ jc ∈ jcs, ∀ l ∈ jc.sched.exprs, SortedStrict l)
     (h : schedNew jcs cfg dflt now = some pq) {cap : Int} {flushLimit fuel : Nat}
-    (ts : List Int) (hts : List.Pairwise (· ≤ ·) ts)
-    (hdone : (runTicks cap flushLimit fuel ⟨pq, jcs.map (fun jc => (jc.key, jc)), []⟩ ts).2.2 = true)
+    {boot : List CtlAct} (hok : BootOK jcs boot) (hts : List.Pairwise (· ≤ ·) (ticksOf boot))
+    (hdone : (ctlRun Shapes.fixed cap flushLimit fuel (bootCtl jcs pq) boot).2.2 = true)
     {jc : JC} (hjc : jc ∈ jcs)
     (hbridge2 : jc.lastScheduled =
       (runSys true (stepSys true s (.sync idx cache)) acts).api.status.lastScheduled) :
     (toJcJob j m ∈ JcStatus.listJobs cache read ∧ JcStatus.labelScheduleTime (toJcJob j m) = some t) ∧
     JcStatus.optLe (some t) (stepSys true s (.sync idx cache)).api.status.lastScheduled ∧
     ∀ u, (jc.key, u) ∈
-        (runTicks cap flushLimit fuel ⟨pq, jcs.map (fun jc => (jc.key, jc)), []⟩ ts).2.1.flatten →
+        (ctlRun Shapes.fixed cap flushLimit fuel (bootCtl jcs pq) boot).2.1.flatten →
       t < u := by
   obtain ⟨hlist, hlab, _⟩ := toJcJob_scheduled now0 c t ht j hj m read hns huid cache hseen
   have hcov := sync_current_covers s hwf idx cache read hread hcur _ t hlist hlab hz
   refine ⟨⟨hlist, hlab⟩, hcov, ?_⟩
   exact C04Status.recorded_time_never_requested_again _ acts
-    (stepSys_wf_mono s (.sync idx cache) hwf).1 t hcov hnd hs h ts hts hdone hjc hbridge2
+    (stepSys_wf_mono s (.sync idx cache) hwf).1 t hcov hnd hs h hok hts hdone hjc hbridge2
 
 /-! ### non-vacuity -/
 
